@@ -12,6 +12,19 @@
 From SF Require Import Base.Prelude Gen.Generated Unsized.Types Unsized.Parse Unsized.Machine Unsized.Ops.
 From SF Require Import Unsized.Proofs.EncodeParse Unsized.Proofs.Mem Unsized.Proofs.Notify Unsized.Proofs.Flat.
 From SF Require Import Unsized.Proofs.Layout Unsized.Proofs.Path Unsized.Proofs.Resize Unsized.Proofs.GenOps Unsized.Proofs.History.
+From SF Require Import Unsized.Proofs.History2 Unsized.Proofs.ExecTie2.
+
+(* the full operation set (stores, set_len, element-level insert / remove of lists of unsized elements): a failure - index,
+   range, growth beyond the allowance, growth refused - leaves the machine state untouched and the value represented; the
+   List operations, the stores and set_len return a plain Err, lists of unsized elements return the error with the pointer
+   tree whose possible_mut_borrow flag was cleared *)
+Theorem C06_all_ops_failure_is_clean :
+  forall ovf t v s top pi0 o code,
+    RepF pi0 t v s top -> oerrX (m_cap s) (m_refuse s) t v o = Some code ->
+    exists top1, menter ovf t s top [] (xfocus o) = Ok top1 /\
+      (mopX t s top1 o = Err code /\ RepF (xfocus o) t v s top1 \/
+       (exists top0, mopX t s top1 o = Ok (s, top0, [-1; code]) /\ RepF (xfocus o) t v s top0)).
+Proof. exact xstep_error. Qed.
 
 (* a failing list operation anywhere inside the value: the descent succeeds, the operation returns the owned model's
    error before any write, and the state still represents the same value *)
